@@ -8,7 +8,7 @@
     function of exactly these components) every later answer to anyone and every
     later stored state is then identical too. *)
 From MW Require Import Base Store Monad Usage Server Websocket Service Findings Inv Obs
-     ProtoFacts NpFactsA MbFactsA MbFactsB DupFacts Inst_Params.
+     ProtoFacts NpFactsA MbFactsA MbFactsB DupFacts Inst_Params DupFactsLater.
 Local Open Scope list_scope.
 
 (** a claim answered `claimed` leaves behind what its duplicate needs ... *)
@@ -66,6 +66,48 @@ Print Assumptions C14_close_dup.
 
 (** KF4 (open known finding), concretely: B keeps the mailbox open, A's close at
     time 8 is re-sent on a fresh connection: `updated` moves from 0 to 8 *)
+(** ** the duplicate arrives LATER (the usual case: DupFactsLater.v)
+
+    [claim_dup] / [open_dup] above are stated for a duplicate arriving at the very instant of
+    the original ([claim_done ... (now s)]).  In general the client needs time to notice and
+    reconnect.  For ANY earlier establishing time t0: the re-sent claim / open gets the same
+    answer (the same mailbox id; ack + replay of the same messages), and the channel database
+    -- work and committed copy -- is the old one with exactly one change: the `updated` stamp
+    of that one mailbox is the duplicate's arrival time ([restamped], [upd_touch]: the re-sent
+    command passes through open_mailbox() and IS activity; all nameplates, claims, side
+    records with their `added` stamps, messages and every other mailbox are identical;
+    connections, subscriptions and timer as before).  With t0 = now this is [claim_dup] /
+    [open_dup] again.  [release_dup] never looks at the clock and [close_dup] already states
+    the re-stamp (known finding KF4), so all four commands are covered at any later time.
+    The usage database gains the one `client_versions` row of the duplicate's bind. *)
+Theorem C14_claim_dup_later : ltac:(let t := type of claim_dup_later in exact t).
+Proof. exact claim_dup_later. Qed.
+Check C14_claim_dup_later.
+Print Assumptions C14_claim_dup_later.
+
+Theorem C14_open_dup_later : ltac:(let t := type of open_dup_later in exact t).
+Proof. exact open_dup_later. Qed.
+Check C14_open_dup_later.
+Print Assumptions C14_open_dup_later.
+
+(** ... after an explicit clock step (no sweep due in between) *)
+Theorem C14_claim_dup_after_advance : ltac:(let t := type of claim_dup_after_advance in exact t).
+Proof. exact claim_dup_after_advance. Qed.
+Check C14_claim_dup_after_advance.
+Print Assumptions C14_claim_dup_after_advance.
+
+Theorem C14_open_dup_after_advance : ltac:(let t := type of open_dup_after_advance in exact t).
+Proof. exact open_dup_after_advance. Qed.
+Check C14_open_dup_after_advance.
+Print Assumptions C14_open_dup_after_advance.
+
+(** what [upd_touch] leaves alone *)
+Theorem C14_restamp_frame : ltac:(let t := type of upd_touch_frame in exact t).
+Proof. exact upd_touch_frame. Qed.
+Check C14_restamp_frame.
+Print Assumptions C14_restamp_frame.
+
+
 Example C14_close_restamps_refuted :
   let cfg := gen_cfg true false None in
   let o := mkOracle None (mkAO None []) in
